@@ -318,6 +318,8 @@ def default_text_style(inp, rng=None):
         st["shuffle_cols"] = rng.random() < 0.7
         st["tokens"] = rng.sample(MISSING_TOKENS_TEXT, rng.randint(1, 3))
         st["sep"] = rng.choice([" ", "  ", "\t", " \t "])
+        if any(t % 3600 != 0 for t in inp["times"]):
+            st["time"] = "unixtime"
     return st
 
 
